@@ -179,8 +179,15 @@ class Session:
 
     def set_model_attr(self, mh, name, value):
         """The caller assigns a public attribute of a model object: from now on that is the model's configuration."""
+        ev = {"op": "setattr", "model0": dict(mh.constructed, id=mh.id), "model": self.enc_model(mh)}
         setattr(mh.m, name, value)
         mh.constructed = self.enc_model(mh)
+        key = {"limit_sigma": "limit"}.get(name, name)
+        ev["attr"] = key
+        ev["value"] = str(mh.constructed.get(key, ""))
+        ev["model_after"] = self.enc_model(mh)
+        ev["out"] = {"kind": "ok", "exc": "", "value": self.enc(None)}
+        self.emit(ev)
 
     def predict(self, op, mh, teams, group="", role="", aux=None):
         fn = {"win": "predict_win", "draw": "predict_draw", "rank": "predict_rank"}[op]
